@@ -143,3 +143,100 @@ harness! { #[kani::unwind(6)] fn twin_u_subs() {
     core::mem::forget(store);
     finish!(3, 7, 9);
 } }
+
+// -----------------------------------------------------------------------------------------
+// a subscriber leaves WHILE a notification round is in progress (C03 / C09): the effect of
+// another thread's unsubscribe(A) on the shared list - A's removal - is applied inside A's
+// own callback, i.e. after do_notify started the round.  (The real unsubscribe closure nested
+// in a round is beyond the solver's memory, DESIGN.md §4.10; what is under test here is
+// do_notify: the subscribers registered for the whole run must still be called exactly once.)
+// -----------------------------------------------------------------------------------------
+static mut ROUND_STORE: Option<Arc<Store>> = None;
+static mut REMOVED: bool = false;
+fn removal_yield(kind: u8, obj: usize) {
+    if rt::at_placement(kind, obj) {
+        unsafe {
+            if let Some(s) = ROUND_STORE.as_ref() {
+                // unsubscribe's critical section: only possible when the list's lock is free
+                if let Ok(mut g) = s.subscribers.try_lock() {
+                    let victim = REMOVE_POS;
+                    if victim < g.len() {
+                        let a = g.remove(victim);
+                        core::mem::forget(a);
+                        REMOVED = true;
+                    }
+                };
+            }
+        }
+    }
+}
+static mut REMOVE_POS: usize = 0;
+
+/// 3 subscribers; during the callback of subscriber `during`, subscriber `victim` is removed
+fn in_round_removal(during: usize, victim: usize) {
+    rt::reset_all();
+    script::reset();
+    crossbeam::hooks::set_native(Some(removal_yield), None);
+    let store = mk_store(1, 0, 2, BackpressurePolicy::BlockOnFull, kani::any());
+    let h0 = sub(&store, 0);
+    let h1 = sub(&store, 1);
+    let h2 = sub(&store, 2);
+    unsafe {
+        core::ptr::write(&mut ROUND_STORE, Some(store.clone()));
+        REMOVED = false;
+        REMOVE_POS = victim;
+    }
+    rt::arm(rt::P_NOTIFY, during, 0);
+    let (s0, a0) = notify(&store, 0);
+    unsafe {
+        rt::PLACE_ARMED = false;
+    }
+    let removed = unsafe { REMOVED };
+    let mut i = 0;
+    while i < 3 {
+        let r = unsafe { SUB[0][i] };
+        if i != victim {
+            chk!(3, r.n == 1 && r.st == s0 && r.act == a0, "a subscriber registered for the whole run is called exactly once for an action, also when another subscriber leaves during the round");
+            chk!(9, r.n == 1, "other subscribers are unaffected by a subscriber leaving");
+        } else {
+            chk!(3, r.n <= 1, "no duplicate notification");
+        }
+        i += 1;
+    }
+    // next action: the victim is silent, the others are notified once
+    let (s1, a1) = notify(&store, 1);
+    let mut i = 0;
+    while i < 3 {
+        let r = unsafe { SUB[1][i] };
+        if i == victim && removed {
+            chk!(9, r.n == 0, "a removed subscriber receives nothing further");
+        } else if i != victim {
+            chk!(3, r.n == 1 && r.st == s1 && r.act == a1, "and exactly once for every later action");
+        }
+        i += 1;
+    }
+    kani::cover!(removed, "COVER-OPT the removal happened inside the round");
+    unsafe {
+        core::ptr::write(&mut ROUND_STORE, None);
+    }
+    core::mem::forget(h0);
+    core::mem::forget(h1);
+    core::mem::forget(h2);
+    core::mem::forget(store);
+    finish!(3, 9);
+}
+macro_rules! round_harness {
+    ($($name:ident = ($d:expr, $v:expr);)+) => { $(
+        harness! {
+            #[kani::stub(crossbeam::hooks::yield_point, removal_yield)]
+            #[kani::unwind(6)]
+            fn $name() { in_round_removal($d, $v); }
+        }
+    )+ };
+}
+round_harness! {
+    u_subs_round_first_leaves_in_own_callback = (0, 0);
+    u_subs_round_first_leaves_during_second = (1, 0);
+    u_subs_round_second_leaves_in_first = (0, 1);
+    u_subs_round_last_leaves_in_first = (0, 2);
+}
